@@ -472,7 +472,7 @@ def shrink(world, spec: dict, oracle: str, budget_runs: int = 200, budget_s: flo
 
 
 def write_replay(spec: dict, result: dict, directory: str | None = None) -> str:
-    d = directory or os.path.join(VERIF_ROOT, 'replays', spec['property'])
+    d = directory or os.path.join(os.environ.get('BIOSIM_REPLAY_DIR') or os.path.join(VERIF_ROOT, 'replays'), spec['property'])
     os.makedirs(d, exist_ok=True)
     path = os.path.join(d, f"seed-{spec['run_seed']}-{result['violation']['oracle'].replace('/', '_').replace(':', '_')}.json")
     out = dict(spec)
